@@ -707,6 +707,133 @@ func (w *bWorld) timedEpisode(four, rekey bool) bool {
 	return true
 }
 
+// sameNonceEpisode: several permission tokens with the SAME nonce in one header — the token, an
+// attenuated variant (a holder added a caveat), a variant with a third-party caveat and its
+// discharge, and a copy with a corrupted tail — all uncached when the header is first verified
+// through a fresh cache; then each of them alone, and pairs, through the same cache.  Every one must
+// get its own result (the attenuation must not be lost, the corrupted copy must stay rejected),
+// exactly as with direct verification.
+func (w *bWorld) sameNonceEpisode() {
+	r, o := w.r, w.o
+	ctx := context.Background()
+	kid := w.kids[0]
+	key := w.keys[string(kid)]
+	pm, err := macaroon.New(kid, w.permLoc, key)
+	if err != nil {
+		panic(err)
+	}
+	pm.Add(&flyio.Organization{ID: 1, Mask: resset.ActionAll})
+	raw := mustEnc(pm)
+	tok := func(b []byte) string { return b64tok(w.label(), b) }
+	P := tok(raw)
+	// attenuated by a holder
+	m1, _ := macaroon.Decode(raw)
+	ro := resset.ActionRead
+	m1.Add(&ro)
+	P1 := tok(mustEnc(m1))
+	// attenuated with a third-party caveat, discharged
+	m2, _ := macaroon.Decode(raw)
+	m2.Add(&flyio.Organization{ID: 1, Mask: resset.ActionRead | resset.ActionWrite})
+	tp := w.tps[0]
+	it, err := newTP(tp.ka, tp.loc)
+	if err != nil {
+		panic(err)
+	}
+	if err := m2.Add(it.cav); err != nil {
+		panic(err)
+	}
+	_, dm, err := macaroon.DischargeTicket(tp.ka, tp.loc, it.tp.ticket)
+	if err != nil {
+		panic(err)
+	}
+	dm.Add(&flyio.Apps{Apps: resset.ResourceSet[uint64, resset.Action]{7: resset.ActionAll}})
+	P2, D2 := tok(mustEnc(m2)), tok(mustEnc(dm))
+	// corrupted tail
+	mb, _ := macaroon.Decode(raw)
+	mb.Tail[r.Intn(len(mb.Tail))] ^= 1 << uint(r.Intn(8))
+	Pbad := tok(mustEnc(mb))
+	var m3s string // sometimes a second holder-attenuated variant
+	first := []string{P, P1, P2, D2, Pbad}
+	if r.Bool() {
+		m3, _ := macaroon.Decode(raw)
+		m3.Add(&flyio.Apps{Apps: resset.ResourceSet[uint64, resset.Action]{1: resset.ActionRead}})
+		m3s = tok(mustEnc(m3))
+		first = append(first, m3s)
+	}
+	for i := len(first) - 1; i > 0; i-- {
+		j := r.Intn(i + 1)
+		first[i], first[j] = first[j], first[i]
+	}
+	hdrs := []string{strings.Join(first, ","), P, P1, P2 + "," + D2, Pbad, P1 + "," + Pbad, D2 + "," + P + "," + P2}
+	if m3s != "" {
+		hdrs = append(hdrs, m3s, m3s+","+P1)
+	}
+	mk := func() []*bundle.Bundle {
+		var bs []*bundle.Bundle
+		for _, h := range hdrs {
+			b, _ := bundle.ParseBundle(w.permLoc, h)
+			bs = append(bs, b)
+		}
+		return bs
+	}
+	bc, bd := mk(), mk()
+	inner := &logVerifier{kr: w.resolver(), ok: map[string]bool{}}
+	vc := bundle.NewVerificationCache(inner, time.Hour, 100)
+	mkReq := func(act resset.Action) (macaroon.Access, string) {
+		d := r.Dyn()
+		d.WF, d.NowSec, d.NowNsec, d.Org, d.Action = "", baseNow, 0, p64(1), act
+		return d.As("org"), d.Sx("org")
+	}
+	wAcc, wSx := mkReq(resset.ActionWrite)
+	rAcc, rSx := mkReq(resset.ActionRead)
+	var opsSx, outC, outD []string
+	now := 0
+	emitStep := func(sx, c, d string) {
+		now++
+		opsSx = append(opsSx, fmt.Sprintf("(%d %s)", now, sx))
+		outC = append(outC, c)
+		outD = append(outD, d)
+	}
+	visit := func(i int) {
+		inner.calls, inner.ok = nil, map[string]bool{}
+		cs, err := bc[i].Verify(ctx, vc)
+		c := setsStr(cs, err) + "~" + statesStr(bc) + fmt.Sprintf("~calls=%d", len(inner.calls))
+		cs, err = bd[i].Verify(ctx, w.resolver())
+		emitStep(fmt.Sprintf("(verify %d cached)", i), c, setsStr(cs, err)+"~"+statesStr(bd))
+		emitStep(fmt.Sprintf("(validate %d %s)", i, wSx), flagStr(bc[i].Validate(wAcc))+"~"+statesStr(bc), flagStr(bd[i].Validate(wAcc))+"~"+statesStr(bd))
+		emitStep(fmt.Sprintf("(validate %d %s)", i, rSx), flagStr(bc[i].Validate(rAcc))+"~"+statesStr(bc), flagStr(bd[i].Validate(rAcc))+"~"+statesStr(bd))
+	}
+	visit(0) // everything misses in ONE call
+	order := make([]int, 0, len(hdrs)-1)
+	for i := 1; i < len(hdrs); i++ {
+		order = append(order, i)
+	}
+	for i := len(order) - 1; i > 0; i-- {
+		j := r.Intn(i + 1)
+		order[i], order[j] = order[j], order[i]
+	}
+	for _, i := range order {
+		visit(i)
+	}
+	o.count(fmt.Sprintf("sameNonce.tokens.%d", len(first)-1))
+	hxs := make([]string, len(hdrs))
+	for i, h := range hdrs {
+		hxs[i] = hs(h)
+	}
+	op := fmt.Sprintf("(cache.run (sem %s) (order %s) (scope %s) %s %s %s (ttl %d) (hdrs %s) %s)", cacheSem, cacheOrder, bundleScope, w.sxKeys(),
+		sxTrust(w.trusted), hs(w.permLoc), int64(1_000_000_000), strings.Join(hxs, " "), strings.Join(opsSx, " "))
+	c, d := strings.Join(outC, " | "), strings.Join(outD, " | ")
+	verdict := "transparent"
+	if stripCalls(c) != d {
+		verdict = "not-transparent:same-nonce"
+		o.count("go.NOT-transparent.same-nonce")
+	} else {
+		o.count("go.transparent")
+	}
+	o.emit(op, c+" # "+d)
+	o.emit("(const transparent)", verdict)
+}
+
 func stripCalls(s string) string {
 	parts := strings.Split(s, " | ")
 	for i, p := range parts {
@@ -738,6 +865,16 @@ func famCache(r *Rng, o *Out, tier string) {
 		for k := 0; k < 3; k++ {
 			w.cacheEpisode(hookable, e == 0 && k == 0)
 		}
+	}
+	// same-nonce variants missing together in one call: which entry survives a key collision would
+	// depend on map iteration order, so repeat with fresh caches
+	crand.Reader = old
+	sn := 6
+	if tier == "thorough" {
+		sn = 20
+	}
+	for e := 0; e < sn; e++ {
+		newBWorld(r, o).sameNonceEpisode()
 	}
 	// a few episodes in real time (about half a second each)
 	crand.Reader = old
